@@ -3,6 +3,8 @@ props={}
 for l in open('/verif/properties.jsonl'):
     d=json.loads(l); props[d['id']]=d
 api={
+'C05':"`candid::types::subtype::{subtype, subtype_with_config, subtype_check_all, equal, Gamma, OptReport}`, `candid::TypeEnv`, `candid_parser::utils::{service_compatible, service_compatibility_report, service_equal, CandidSource}`, `candid_parser::{IDLProg, check_prog}`",
+'C15':"`candid::idl_hash`, `candid::types::Label`, `candid_parser::{IDLProg, check_prog, parse_idl_args}`, derive macros `CandidType`, `IDLValue` printing",
 'C02':"`candid::{IDLArgs, IDLValue, TypeEnv, types::Type}`, `IDLArgs::from_bytes`, `IDLArgs::from_bytes_with_types`, `IDLArgs::to_bytes`, `IDLArgs::to_bytes_with_types`, `candid::de::IDLDeserialize`, `candid::ser::IDLBuilder`, `candid::{Encode, Decode, encode_args, decode_args}`; hand-written byte messages (`hex`) are fine",
 'C09':"`candid::{Nat, Int}`, `Nat::decode/encode`, `Int::decode/encode`, `candid::types::leb128::{encode_nat, encode_int, decode_nat, decode_int}`, `candid::{Encode, Decode}` with u64/i64/u128/i128/Nat/Int, `IDLArgs::from_bytes`, hand-written byte messages",
 'C03':"`candid::{IDLArgs, IDLValue, TypeEnv, types::Type}`, `IDLArgs::from_bytes_with_types`, `IDLArgs::from_bytes`, `IDLArgs::to_bytes_with_types`, `IDLArgs::annotate_types`, `candid_parser::{IDLProg, check_prog, parse_idl_args}` to build types/values from text",
@@ -23,6 +25,8 @@ api={
 'C20':"`candid_parser::random::{any, RandomConfig}` (see source for exact signatures), `candid_parser::configs::{Configs, ConfigState}`, `candid::{IDLArgs, TypeEnv}`, `IDLArgs::annotate_types`, `IDLArgs::to_bytes_with_types`",
 }
 hints={
+'C05':"e.g. a particular shape of recursive types, a multi-step sequence of queries sharing one memo (Gamma), a particular order of fields/methods, a failed probe followed by another query, two cooperating sites that each look fine alone",
+'C15':"e.g. a particular label spelling (non-ASCII, digits, leading zeros, 0x prefixes), a hash collision, a boundary of the 32-bit id space, a particular API surface (derive macro vs parser vs value printer)",
 'C02':"e.g. a particular wire-type shape (recursive table entries, forward references, opt of a type that decodes to error, surplus fields in a nested record, a LEB-padded count, an empty-record cycle), a particular combination of expected vs wire type, or a boundary in a length/limit check",
 'C09':"e.g. a value at a specific bit-width boundary, a padded/over-long encoding, a particular sign/continuation-bit combination, a particular integer width (u64 vs u128 vs big), debug vs release",
 'C03':"e.g. a particular combination of wire type and expected type (opt over mismatching payload, variant with surplus tags, missing optional field, reserved, recursive expected type), so that the decoded value no longer has the expected type or differs from the spec's coercion",
